@@ -113,6 +113,8 @@ RefUnary(x, s) ==
     [] o = "finalize" -> s
     [] o = "status" -> s
     [] o = "defer" -> s
+    (* scheduler-moving operators: the same sequence, later (the timing part is monitor C07) *)
+    [] o \in {"delay", "observe_on", "delay_subscription", "subscribe_on"} -> s
     [] OTHER -> s
 
 RefUnaryOps == {"map", "map_to", "filter", "filter_map", "tap", "on_error_map", "on_complete",
@@ -121,7 +123,7 @@ RefUnaryOps == {"map", "map_to", "filter", "filter_map", "tap", "on_error_map", 
                 "pairwise", "buffer_count", "collect", "take", "first", "first_or",
                 "element_at", "ignore_elements", "take_while", "contains", "all",
                 "reduce_initial", "sum", "count", "max", "min", "average", "start_with",
-                "finalize", "status", "defer"}
+                "finalize", "status", "defer", "delay", "observe_on", "delay_subscription", "subscribe_on"}
 
 (* a notification sequence (as emitted into a hot input, or scripted in a cold   *)
 (* `create`) read as a stream: everything after the first terminal is ignored     *)
